@@ -1,6 +1,7 @@
 package main
 
 import (
+	"io"
 	"crypto/sha256"
 	"encoding/hex"
 	"encoding/json"
@@ -28,6 +29,8 @@ type FixtureCase struct {
 	Excl     bool   `json:"excl"`
 	WrapPath string `json:"wrappath"`
 	Many     int    `json:"many"` // dir-custom: number of children (large values make name collisions likely)
+	// Avail > 0 (file generator): the random source is finite and ends after Avail-1 bytes (a source may run dry early)
+	Avail int `json:"avail"`
 }
 
 // FTree is a described or stored entry tree as the trace carries it.
@@ -169,7 +172,11 @@ func runFixtureCase(fc *FixtureCase, tr *Tr) error {
 	pm := guard(func() {
 		switch fc.Gen {
 		case "file":
-			de, err = testutil.UnixFSFile(*ls, fc.Size, testutil.WithRandReader(rnd))
+			var src io.Reader = rnd
+			if fc.Avail > 0 {
+				src = io.LimitReader(rnd, int64(fc.Avail-1))
+			}
+			de, err = testutil.UnixFSFile(*ls, fc.Size, testutil.WithRandReader(src))
 		case "dir":
 			composed = true
 			opts := []testutil.Option{testutil.WithRandReader(rnd)}
@@ -279,11 +286,14 @@ func init() {
 					if mod != nil {
 						mod(fc)
 					}
-					fc.ID = fmt.Sprintf("%s-%d-%d-bw%d-%v-%v-m%d-%q", gen, fc.Seed, sz, fc.Bitwidth, fc.Sharded, fc.Excl, fc.Many, fc.WrapPath)
+					fc.ID = fmt.Sprintf("%s-%d-%d-bw%d-%v-%v-m%d-%q-a%d", gen, fc.Seed, sz, fc.Bitwidth, fc.Sharded, fc.Excl, fc.Many, fc.WrapPath, fc.Avail)
 					return runFixtureCase(fc, tr)
 				}
 				steps := []func() error{
 					func() error { return mk("file", nil) },
+					// a random source that runs dry before / exactly at / just after the requested size
+					func() error { return mk("file", func(fc *FixtureCase) { fc.Avail = 1 + sz*3/5 }) },
+					func() error { return mk("file", func(fc *FixtureCase) { fc.Avail = 1 + sz - 1 + i%3 }) },
 					func() error { return mk("dir", nil) },
 					func() error { return mk("dir", func(fc *FixtureCase) { fc.Bitwidth = 3 }) },
 					func() error { return mk("dir-custom", nil) },
